@@ -239,7 +239,7 @@ PROPS = {
             "note": "Partial: the model is the *transcription* of the BSV rules by which go-bt is judged; the refinement model = declarative spec for each opcode and decode(encode z) = z for all integers are not yet proved (numeric layer is checked exhaustively on ranges by the driver). Where the unrepaired code deviated (OP_LSHIFT/OP_RSHIFT), the model follows the node's rule (bit-string shift) and the code was repaired. Hash functions are executable Lean models validated on vectors. Trusted: Lean kernel + standard axioms, extractor, harness/generators/comparer, driver glue.",
             "technique": "executable Lean model + Lean 4 proofs of table obligations and invariants + step-by-step differential correspondence check",
         },
-        "generators": ["C05"],
+        "generators": ["C05", "FZ05"],
         "thorough_seeds": 2,
         "gen_obligations": ["dispatch_table_matches", "limits_match", "flags_match", "locktime_consts_match"],
         "rule": "exhaustive: every unary opcode x edge operands (empty, 00, 80, 01, 81, 7f, ff, non-minimal, 4/5/9-byte, 32/33-byte negative, 519/520/521 and 2000-byte), every binary opcode x E x E, WITHIN x E'^3, shifts for operand lengths {0,1,2,3,4,16,33} x counts 0..8n+1 plus negative/huge counts, both eras; type-directed random programs (stack-depth aware, nested IF/NOTIF/ELSE/ENDIF with OP_RETURN, VERIF, disabled and undefined opcodes in executed and skipped branches) under sampled policy flags; conditional matrices; limit probes (200/201/499/500/501 ops, 999/1000/1001 items, 519/520/521 bytes, 9999/10000/10001-byte scripts); P2SH redeem scripts; push forms under MINIMALDATA. Non-trivial = program that executed at least 3 instructions.",
